@@ -23,7 +23,15 @@ ROOT = os.path.dirname(os.path.dirname(os.path.abspath(__file__)))
 WORK = os.path.join(ROOT, ".work")
 LEAN = os.path.join(ROOT, "lean")
 HARNESS = os.path.join(ROOT, "harness")
-REPO = os.environ.get("VERIF_REPO", "/repo")
+def _repo():
+    r = os.environ.get("VERIF_REPO")
+    f = os.path.join(ROOT, ".repo_path")   # only present in private working copies of /verif
+    if not r and os.path.exists(f):
+        r = open(f).read().strip()
+    return r or "/repo"
+
+
+REPO = _repo()
 DRV = os.path.join(LEAN, ".lake", "build", "bin", "h3drv")
 RUN = os.path.join(HARNESS, "target", "release", "h3run")
 ALLOWED_AXIOMS = {"propext", "Classical.choice", "Quot.sound"}
@@ -175,6 +183,12 @@ def harness_build():
     if not os.path.exists(lock) and os.path.exists(src):
         import shutil
         shutil.copy(src, lock)
+    toml = os.path.join(HARNESS, "Cargo.toml")
+    if REPO != "/repo":  # private working copy pointing at a scratch worktree of the repository
+        t = open(toml).read()
+        t2 = re.sub(r'path = "[^"]*/(h3[a-z-]*)"', lambda m: 'path = "%s/%s"' % (REPO, m.group(1)), t)
+        if t2 != t:
+            open(toml, "w").write(t2)
     with Lock("cargo"):
         rc, out = sh(["cargo", "build", "--release", "--offline"], cwd=HARNESS, timeout=3000)
     return rc == 0, out
